@@ -28,6 +28,8 @@ type replayDriver struct {
 	pkg   string // package directory relative to the repo
 	exp   bool   // lives in the exp module
 	tmpl  string // Go test template; fields are the decoded inputs
+	// byte-string inputs (SMT terms of sort Bytes): read back as length + elements and rendered as a Go []byte literal
+	bytesTerms func(c *Ctx) (map[string]string, bool)
 }
 
 var replayDrivers = map[string]*replayDriver{
@@ -209,6 +211,50 @@ func TestReplayVerif(t *testing.T) {
 `,
 		}
 	}
+	replayDrivers["(*zapcore.Level).UnmarshalText"] = &replayDriver{
+		pkg: "zapcore",
+		terms: func(c *Ctx) (map[string]string, bool) {
+			l := c.paramConst("l")
+			if l == "" {
+				return nil, false
+			}
+			// the level stored at *l on entry
+			return map[string]string{"Init": c.hsel(c.entry, c.cellComp(deref(c.fn.Params[0].Type())), l)}, true
+		},
+		bytesTerms: func(c *Ctx) (map[string]string, bool) {
+			p := c.paramConst("text")
+			if p == "" {
+				return nil, false
+			}
+			return map[string]string{"Text": p}, true
+		},
+		tmpl: `package zapcore
+
+import (
+	"strings"
+	"testing"
+)
+
+// Replay of a refuted obligation of Level.UnmarshalText: the initial level and the text come from the solver's
+// model; the oracle is the documented name table (any letter case; "" reads as info; "warning" as warn).
+func TestReplayVerif(t *testing.T) {
+	init, text := Level(int8({{.Init}})), {{.Text}}
+	names := map[string]Level{"debug": DebugLevel, "info": InfoLevel, "": InfoLevel, "warn": WarnLevel, "warning": WarnLevel, "error": ErrorLevel, "dpanic": DPanicLevel, "panic": PanicLevel, "fatal": FatalLevel}
+	want, known := names[string(text)]
+	if !known {
+		want, known = names[strings.ToLower(string(text))]
+	}
+	l := init
+	err := l.UnmarshalText(text)
+	switch {
+	case known && (err != nil || l != want):
+		t.Fatalf("REPLAY-VIOLATION Level(%d).UnmarshalText(%q): level %d, err %v; want level %d, no error", init, text, l, err, want)
+	case !known && (err == nil || l != init):
+		t.Fatalf("REPLAY-VIOLATION Level(%d).UnmarshalText(%q): level %d, err %v; want an error and the level unchanged", init, text, l, err)
+	}
+}
+`,
+	}
 	replayDrivers["exp/zapslog.convertSlogLevel"] = &replayDriver{
 		pkg: "zapslog", exp: true,
 		terms: func(c *Ctx) (map[string]string, bool) {
@@ -360,6 +406,11 @@ func getValues(file string, terms map[string]string) (map[string]string, string)
 		ts = append(ts, t)
 	}
 	q := strings.Replace(string(b), "(get-model)", "(get-value ("+strings.Join(ts, " ")+"))", 1)
+	if replayExtraAsserts != "" {
+		if i := strings.LastIndex(q, "(check-sat)"); i >= 0 {
+			q = q[:i] + replayExtraAsserts + q[i:]
+		}
+	}
 	qf := strings.TrimSuffix(file, ".smt2") + ".values.smt2"
 	os.WriteFile(qf, []byte(q), 0o644)
 	for _, solver := range [][]string{{"z3-new", "-T:20", qf}, {"/usr/bin/z3", "-T:20", qf}} {
@@ -437,8 +488,47 @@ func lastSexpr(s string) string {
 	return s
 }
 
-// replayObligation: true when the real code reproduced the violation on the model's inputs.
+// extra assertions added to the value queries: blocking clauses for candidate inputs already tried
+var replayExtraAsserts string
+
+// replayObligation: true when the real code reproduced the violation on inputs taken from a model of the
+// refuting query. A model of the quantifier-free refutation form need not be a real counterexample (facts
+// under quantifiers are missing from it), so up to five different candidates are tried: after each candidate
+// that the real code handles correctly, its input values are excluded and the solver is asked again.
 func replayObligation(root, repo, prop string, c *Ctx, o *Obligation, payload map[string]interface{}) bool {
+	replayExtraAsserts = ""
+	defer func() { replayExtraAsserts = "" }()
+	var tried []interface{}
+	for attempt := 0; attempt < 5; attempt++ {
+		p := map[string]interface{}{}
+		ok, block := replayOnce(root, repo, prop, c, o, p, attempt)
+		payload["replay"] = p["replay"]
+		if ok {
+			payload["replay_candidates_tried"] = attempt + 1
+			return true
+		}
+		tried = append(tried, p["replay"])
+		if block == "" {
+			break
+		}
+		replayExtraAsserts += "(assert (not " + block + "))\n"
+	}
+	if len(tried) > 1 {
+		payload["replay_candidates"] = tried
+	}
+	return false
+}
+
+func replayOnce(root, repo, prop string, c *Ctx, o *Obligation, payload map[string]interface{}, attempt int) (bool, string) {
+	var blockParts []string
+	ok := replayOnceInner(root, repo, prop, c, o, payload, attempt, &blockParts)
+	if ok || len(blockParts) == 0 {
+		return ok, ""
+	}
+	return false, "(and " + strings.Join(blockParts, " ") + ")"
+}
+
+func replayOnceInner(root, repo, prop string, c *Ctx, o *Obligation, payload map[string]interface{}, attempt int, blockParts *[]string) bool {
 	if c == nil || c.fn == nil || o.File == "" {
 		return false
 	}
@@ -460,12 +550,57 @@ func replayObligation(root, repo, prop string, c *Ctx, o *Obligation, payload ma
 	}
 	inputs := map[string]string{}
 	for k, v := range vals {
+		*blockParts = append(*blockParts, fmt.Sprintf("(= %s %s)", terms[k], v))
 		lit, ok := decodeSMTInt(v, 64)
 		if !ok {
 			payload["replay"] = map[string]interface{}{"driver": id, "error": "model value of " + k + " is not a number: " + truncate(v, 200)}
 			return false
 		}
 		inputs[k] = lit
+	}
+	if d.bytesTerms != nil {
+		bts, ok := d.bytesTerms(c)
+		if !ok {
+			payload["replay"] = "replay driver for " + id + ": byte-string inputs not found in the query"
+			return false
+		}
+		for name, term := range bts {
+			// term is a []byte parameter (sort Slice): its length and its cells in the entry heap (not the abstract content
+			// term, whose laws are absent from the quantifier-free refutation form)
+			lv, raw := getValues(o.File, map[string]string{"len": fmt.Sprintf("(sl_len %s)", term)})
+			if lv == nil {
+				payload["replay"] = map[string]interface{}{"driver": id, "error": "could not read back the length of " + name, "solver_output": truncate(raw, 1000)}
+				return false
+			}
+			*blockParts = append(*blockParts, fmt.Sprintf("(= (sl_len %s) %s)", term, lv["len"]))
+			ls, ok := decodeSMTInt(lv["len"], 64)
+			n, _ := new(big.Int).SetString(ls, 10)
+			if !ok || n == nil || n.Sign() < 0 || n.Cmp(big.NewInt(64)) > 0 {
+				payload["replay"] = map[string]interface{}{"driver": id, "error": "model length of " + name + " is not in 0..64: " + lv["len"]}
+				return false
+			}
+			elems := map[string]string{}
+			for i := 0; i < int(n.Int64()); i++ {
+				elems[fmt.Sprintf("b%03d", i)] = fmt.Sprintf("(select %s (elem (sl_arr %s) (+ (sl_off %s) %d)))", c.hget(c.entry, c.elemComp(types.Typ[types.Uint8])), term, term, i)
+			}
+			lit := "[]byte{"
+			if len(elems) > 0 {
+				ev, raw := getValues(o.File, elems)
+				if ev == nil {
+					payload["replay"] = map[string]interface{}{"driver": id, "error": "could not read back the bytes of " + name, "solver_output": truncate(raw, 1000)}
+					return false
+				}
+				for i := 0; i < int(n.Int64()); i++ {
+					b, ok := decodeSMTInt(ev[fmt.Sprintf("b%03d", i)], 64)
+					if !ok {
+						return false
+					}
+					bi, _ := new(big.Int).SetString(b, 10)
+					lit += fmt.Sprintf("%d, ", new(big.Int).And(bi, big.NewInt(255)).Int64())
+				}
+			}
+			inputs[name] = lit + "}"
+		}
 	}
 	var src bytes.Buffer
 	if err := template.Must(template.New("t").Parse(d.tmpl)).Execute(&src, inputs); err != nil {
@@ -474,6 +609,9 @@ func replayObligation(root, repo, prop string, c *Ctx, o *Obligation, payload ma
 	dir := filepath.Join(root, "out", "replay", prop)
 	os.MkdirAll(dir, 0o755)
 	testFile := filepath.Join(dir, sanitize(truncate(o.Name, 100))+"_replay_test.go")
+	if attempt > 0 {
+		testFile = filepath.Join(dir, sanitize(truncate(o.Name, 100))+fmt.Sprintf("_replay%d_test.go", attempt+1))
+	}
 	os.WriteFile(testFile, src.Bytes(), 0o644)
 	out, failed := runOverlayTest(repo, d.pkg, d.exp, testFile)
 	reproduced := failed && strings.Contains(out, "REPLAY-VIOLATION")
